@@ -135,6 +135,13 @@ func (h *NtfnsHandler) Start() error {
 				})
 			return err
 		}
+		if blk == nil {
+			// the node is reorganising below the height seen above; the tip
+			// it ends on is announced to the (already registered) listener
+			logging.CPrint(logging.WARN, "NtfnsHandler.Start(): chain shortened while catching up",
+				logging.LogFormat{"height": curHeight})
+			break
+		}
 
 		err = h.processConnectedBlock(blk)
 		if err != nil {
